@@ -16,6 +16,8 @@ static mut CALLS: [Call; MAXC] = [Call { region: 0, off: 0, len: 0, ret: 0 }; MA
 static mut NC: usize = 0;
 /// true: a region transfers less than it was asked (short stream read); false: always the whole chunk
 static mut SHORT: bool = false;
+/// true: the region refuses atomic accesses (what a misaligned or region-straddling address gets)
+static mut ATOMIC_ERR: bool = false;
 
 pub struct MockRegion { pub id: usize, pub start: u64, pub len: u64 }
 impl MockRegion {
@@ -40,8 +42,14 @@ impl Bytes<MemoryRegionAddress> for MockRegion {
     fn read_exact_volatile_from<F: ReadVolatile>(&self, addr: MemoryRegionAddress, _src: &mut F, count: usize) -> std::result::Result<(), Self::E> { self.rec(addr.0, count).map(|_| ()) }
     fn write_volatile_to<F: WriteVolatile>(&self, addr: MemoryRegionAddress, _dst: &mut F, count: usize) -> std::result::Result<usize, Self::E> { self.rec(addr.0, count) }
     fn write_all_volatile_to<F: WriteVolatile>(&self, addr: MemoryRegionAddress, _dst: &mut F, count: usize) -> std::result::Result<(), Self::E> { self.rec(addr.0, count).map(|_| ()) }
-    fn store<T: crate::AtomicAccess>(&self, _val: T, addr: MemoryRegionAddress, _order: Ordering) -> std::result::Result<(), Self::E> { self.rec(addr.0, std::mem::size_of::<T>()).map(|_| ()) }
-    fn load<T: crate::AtomicAccess>(&self, addr: MemoryRegionAddress, _order: Ordering) -> std::result::Result<T, Self::E> { self.rec(addr.0, std::mem::size_of::<T>()).map(|_| T::zeroed()) }
+    fn store<T: crate::AtomicAccess>(&self, _val: T, addr: MemoryRegionAddress, _order: Ordering) -> std::result::Result<(), Self::E> {
+        let r = self.rec(addr.0, std::mem::size_of::<T>()).map(|_| ());
+        if unsafe { ATOMIC_ERR } { Err(GuestMemoryError::InvalidBackendAddress) } else { r }
+    }
+    fn load<T: crate::AtomicAccess>(&self, addr: MemoryRegionAddress, _order: Ordering) -> std::result::Result<T, Self::E> {
+        let r = self.rec(addr.0, std::mem::size_of::<T>()).map(|_| T::zeroed());
+        if unsafe { ATOMIC_ERR } { Err(GuestMemoryError::InvalidBackendAddress) } else { r }
+    }
 }
 impl GuestMemoryRegion for MockRegion {
     type B = ();
@@ -174,6 +182,32 @@ pub fn guest_exact_forms_report_partial_buffer() {
         Err(GuestMemoryError::PartialBuffer { expected, completed }) => assert!(run < count && run > 0 && *expected == count && *completed == run, "C03: PartialBuffer must report expected = requested and completed = length of the mapped run"),
         Err(GuestMemoryError::InvalidGuestAddress(a)) => assert!(run == 0 && a.0 == addr, "C03: InvalidGuestAddress only when the first byte is unmapped"),
         Err(_) => assert!(false, "C03: unexpected error"),
+    }
+    std::mem::forget(r);
+}
+
+// guest-level atomic store / load: exactly ONE atomic access of the owning region at (address - region
+// start), and the region's verdict is the result -- a refused access (misaligned, straddling a region
+// end) is reported, never retried through a plain, tearable object copy.
+#[kani::proof]
+#[kani::unwind(6)]
+pub fn guest_atomic_access_is_exactly_the_regions() {
+    let m = any_mem();
+    let addr: u64 = kani::any();
+    let fail: bool = kani::any();
+    let do_store: bool = kani::any();
+    unsafe { ATOMIC_ERR = fail; SHORT = false; }
+    let r: std::result::Result<(), GuestMemoryError> = if do_store { m.store(5u32, GuestAddress(addr), Ordering::SeqCst) } else { m.load::<u32>(GuestAddress(addr), Ordering::SeqCst).map(|_| ()) };
+    let nc = unsafe { NC };
+    match owner(&m, addr as u128) {
+        None => assert!(nc == 0 && matches!(r, Err(GuestMemoryError::InvalidGuestAddress(a)) if a.0 == addr), "C03,C06: an atomic access at an unmapped address must fail with InvalidGuestAddress and touch no region"),
+        Some(i) => {
+            assert!(nc == 1, "C06,C03: a guest-level atomic access must be exactly one access of the owning region (no fallback, no second attempt)");
+            let c = unsafe { CALLS[0] };
+            assert!(c.region == i && c.off == addr - m.r[i].start && c.len == 4, "C06,C03: atomic access handed to the wrong region / offset / width");
+            if fail { assert!(matches!(r, Err(GuestMemoryError::InvalidBackendAddress)), "C06: an atomic access the region refused (misaligned / straddling) must be reported as such, never performed some other way"); }
+            else { assert!(r.is_ok(), "C06,C03: an atomic access the region performed must succeed"); }
+        }
     }
     std::mem::forget(r);
 }
